@@ -256,3 +256,8 @@ func init() {
 	prop("C09", "C09-R5")
 	prop("C01", "C09-R5") // a checkpoint that skips a dirty page
 }
+
+func init() {
+	prop("C13", "C13-R11")
+	prop("C14", "C13-R11")
+}
